@@ -31,7 +31,7 @@ RULE = ("cases = key set (1..48 distinct keys: small / colliding / negative / +-
         "per-key assignment, fill, contains, HashSet.contains (vector and scalar), items / to_dict, zeros_like, ones_like and writes into "
         "their results, +, += number / table, == incl. large and nearly equal values) with ~25% malformed "
         "queries; on narrow key dtypes a third of the cases query with int64 arrays incl. absent keys congruent to a present key "
-        "modulo 2**bits; tables born with one shared integer value are also filled with a fraction and read before and after the first per-key write; distinct = distinct (keys, mod, history); non-trivial = >= 2 keys and >= 2 operations")
+        "modulo 2**bits; crowded buckets on narrow key dtypes (130..256 keys of an 8-bit dtype, 300..700 of a 16-bit one, modulus 1 / 2 / 3 / default); tables born with one shared integer value are also filled with a fraction and read before and after the first per-key write; distinct = distinct (keys, mod, history); non-trivial = >= 2 keys and >= 2 operations")
 EXHAUSTIVE = {"quick": False, "thorough": False}
 CORRESPONDENCE_ONLY = ["value dtypes", "+ of tables built from the same keys in another order"]
 ASSUMPTIONS = ["keys handed to the constructor are distinct (the library's documented precondition)"]
